@@ -40,7 +40,8 @@ def gen_cases(v, out, only=None):
         shutil.rmtree(sdir, ignore_errors=True)
         os.makedirs(sdir)
         cmd = [C.harness_bin(HARNESS), "-out", sdir, "-n", str(n), "-steps", str(steps), "-seed", str(v.seed),
-               "-stmts", stmts, "-shard", str(k), "-shards", str(shards)]
+               "-stmts", stmts, "-shard", str(k), "-shards", str(shards),
+               "-scenarios", "1" if v.tier == "quick" else "2"]
         if only is not None:
             cmd += ["-only", str(only)]
         procs.append((sdir, subprocess.Popen(cmd, stdout=subprocess.PIPE, stderr=subprocess.STDOUT)))
@@ -79,13 +80,15 @@ def gen_cases(v, out, only=None):
 
 
 DIAG = """From Coq Require Import String List Bool.
-From LS Require Import Gen.Stmts Gen.FsSites Stmts.Model.
+From LS Require Import Gen.Stmts Gen.FsSites Gen.TxSites Stmts.Model.
 Import ListNotations.
 Definition bad_stmts := filter (fun st => negb (stmt_safe hole holes st)) stmts.
 Definition bad_instances := flat_map (fun st => filter (fun t => negb (is_some (stmt_class_s t))) (instances hole holes st)) bad_stmts.
 Eval vm_compute in ("all_stmts_safe fails for", map (fun st => (fst (fst st), snd (fst st))) bad_stmts, "unrecognised texts", bad_instances).
 Eval vm_compute in ("all_dsns_safe fails for", filter (fun d => negb (dsn_ok d)) dsns).
 Eval vm_compute in ("db_file_readonly fails for", filter (fun s => negb (site_ok s)) sites).
+Eval vm_compute in ("tx_release_discipline fails for (function, begin site, variable, guard, guard site, unguarded returns)",
+                    filter (fun t => negb (tx_site_ok t)) tx_sites, "cleared without rollback", tx_nil_without_release, "commits", tx_commits).
 """
 
 
@@ -95,9 +98,9 @@ def diagnose():
     os.makedirs(d, exist_ok=True)
     path = os.path.join(d, "diag.v")
     open(path, "w").write(DIAG)
-    C.coq_build(targets=["Stmts/Model.vo", "Gen/Stmts.vo", "Gen/FsSites.vo"])
+    C.coq_build(targets=["Stmts/Model.vo", "Gen/Stmts.vo", "Gen/FsSites.vo", "Gen/TxSites.vo"])
     rc, out = C.sh(["coqc", "-Q", C.COQ, "LS", "-w", "-all", path], cwd=d, timeout=600)
-    return " ".join(out.split())[:1800]
+    return " ".join(out.split())[:2400]
 
 
 def broken_lemmas(problems):
@@ -125,21 +128,13 @@ def broken_lemmas(problems):
 def run(v):
     proof_ok, problems = C.standard_proof_phase(
         v, PID, extra_checker="; tools/gen regenerates coq/Gen/{Stmts,FsSites,Consts,Scalar}.v from the source first")
-    # the agreement lemmas between the regenerated scalars/constants and the layers' models
-    # (also compiled by every other check once wired into lib/common.py)
-    agree_problems = []
-    for mod in ("GenAgree", "GenAgreePolicy"):
-        okb, mk = C.coq_build(targets=["Properties/%s.vo" % mod])
-        ob = C.property_obligations(mod)
-        bad = C.assumption_problems(ob["assumptions"])
-        if not ob["ok"] or bad or len(ob["discharged"]) != len(ob["theorems"]) or not ob["theorems"]:
-            agree_problems.append("Properties/%s.v: %s" % (mod, (ob["log"][-900:] if not ob["ok"] else "; ".join(bad) or "missing Print Assumptions")))
-        v.coverage.setdefault("agreement_theorems", {})[mod] = ob["discharged"]
-    if agree_problems:
+    # Properties/GenAgree.v and GenAgreePolicy.v (regenerated scalars/constants = the layers' model functions)
+    # are compiled by standard_proof_phase (lib/common.py GEN_AGREE); a failure there is part of `problems`.
+    if not proof_ok and any("GenAgree" in p_ for p_ in problems):
         v.violation("C14/gen-agree-broken",
                     "a scalar function or constant regenerated from the source no longer equals the model function "
-                    "the theorems are about: " + " | ".join(agree_problems),
-                    {"theorem_or_correspondence": "coq/Gen/Agree.v, coq/Gen/AgreePolicy.v", "problems": agree_problems}, False)
+                    "the theorems are about: " + " | ".join(p_ for p_ in problems if "GenAgree" in p_)[:1500],
+                    {"theorem_or_correspondence": "coq/Gen/Agree.v, coq/Gen/AgreePolicy.v", "problems": problems}, False)
     ok, o = C.build_runner(LAYERS)
     if not ok:
         if not proof_ok:
@@ -148,6 +143,13 @@ def run(v):
         v.violation("C14/runner-build", o[-1500:], {"theorem_or_correspondence": "extraction of Stmts/Entry.v"}, False)
         return
     ok, o = C.build_harness(HARNESS)
+    if not ok:
+        # the hook file (/repo/export_verif_stmts.go) may no longer fit the tree: a renamed internal must
+        # not become an alarm; without the tag the harness runs everything except the fault injection
+        ok2, o2 = C.build_harness(HARNESS, tags="noverif")
+        if ok2:
+            v.coverage["fault_injection"] = "unavailable: harness built without the verif tag (%s)" % " ".join(o.split())[-300:]
+            ok = True
     if not ok:
         if not proof_ok:
             v.violation("C14/proof-broken", "; ".join(problems),
@@ -175,7 +177,14 @@ def run(v):
                 "VACUUM, incremental_vacuum, rollbacks, application checkpoints, reconnects; page sizes 512..65536, "
                 "auto_vacuum 0/1/2) run with litestream (Open, Sync, Replica.Sync, Checkpoint PASSIVE/FULL/RESTART/TRUNCATE, "
                 "Snapshot, Compact, Close+reopen, Close; MinCheckpointPageN 1..1000, TruncatePageN 0..121359, interval 0/1ns/1h, "
-                "MaxSyncWALBytes 0/1/3 frames/1MiB) and without; one stmts_diff_ok case per quiescent point (after Open, after "
+                "MaxSyncWALBytes 0/1/3 frames/1MiB) and without; 35% of the Sync/Checkpoint calls run under an injected fault on "
+                "litestream's LTX staging files (open ENOSPC / write ENOSPC / Sync EIO / Close EIO on the k-th staging file, "
+                "k=0..4) with application commits landing at staging opens 1..3; after EVERY litestream call a busy_timeout(0) "
+                "writer must get the write lock. C: systematic fault scenarios: {CK-PASSIVE, CK-FULL, CK-RESTART, CK-TRUNCATE, "
+                "Sync with MinCheckpointPageN=1, Sync with TruncatePageN=1} x every subset of staging opens 1..3 at which an "
+                "application commit lands x failing staging file 1..4 x fault kind (quick: one kind per combination), followed by "
+                "further application writes, a clean Sync, Close, one more write and the comparison with the control run. "
+                "One stmts_diff_ok case per quiescent point (after Open, after "
                 "every litestream operation, after Close). distinct = distinct (entry,input); non-trivial = a statement "
                 "executed, or a point at which both internal tables exist.",
         "samples": stats["samples"],
@@ -191,7 +200,13 @@ def run(v):
         "litestream_ops": {k[3:]: c for k, c in ex.items() if k.startswith("ls:")},
         "db_file_changed_by": {k.split(":", 1)[1]: c for k, c in ex.items() if k.startswith("dbfile_changed_by:")},
         "divergences": {k: c for k, c in ex.items() if k.startswith("diverged:")},
+        "fault_scenarios": ex.get("fault_scenarios", 0),
+        "faults_fired": ex.get("faults_fired", 0),
+        "faults_fired_in": {k.split(":", 1)[1]: c for k, c in ex.items() if k.startswith("fault_fired_in:")},
+        "app_steps_during_litestream_op": ex.get("app_steps_during_litestream_op", 0),
+        "histories_aborted_on_lock_leak": ex.get("histories_aborted_on_lock_leak", 0),
     })
+    v.coverage.setdefault("fault_injection", "openLTXFile hook (export_verif_stmts.go)" if ex.get("fault_injection") else "unavailable")
     if errors:
         v.violation("C14/runner-error", "; ".join(errors[:3]), {"theorem_or_correspondence": "runner"}, False)
     impl = stats.get("impl_violations") or []
@@ -244,7 +259,9 @@ def replay(v, path):
         print(o)
         return 2
     out = os.path.join(C.WORK, PID, "replay")
-    if hist.get("part") == "differential-replay" and "index" in hist:
+    if hist.get("part") == "fault-scenario" and "scenario" in hist:
+        ok, o = gen_cases(v, out, only=-2 - int(hist["scenario"]))
+    elif hist.get("part") == "differential-replay" and "index" in hist:
         v.seed = int(hist.get("seed", v.seed))
         ok, o = gen_cases(v, out, only=int(hist["index"]))
     elif r.get("case_lines"):
